@@ -155,3 +155,36 @@ func (w *World) extraChecks(o *Options) []*FuncResult {
 	}
 	return nil
 }
+
+type scenarioRun struct {
+	test, obligation string
+	res              *replayResult
+}
+
+// runScenariosFor runs each scenario driver mapped to one of the given obligations once.
+func (w *World) runScenariosFor(o *Options, obligations []string) []scenarioRun {
+	dir := filepath.Join(filepath.Dir(o.Findings), "scenarios")
+	data, err := os.ReadFile(filepath.Join(dir, "map.json"))
+	if err != nil {
+		return nil
+	}
+	var ms []scenarioMap
+	if json.Unmarshal(data, &ms) != nil {
+		return nil
+	}
+	done := map[string]bool{}
+	var out []scenarioRun
+	for _, ob := range obligations {
+		for _, sm := range ms {
+			if !strings.Contains(ob, sm.Obligation) || done[sm.Test] {
+				continue
+			}
+			done[sm.Test] = true
+			if r := w.scenarioReplay(o, ob); r != nil {
+				out = append(out, scenarioRun{test: sm.Test, obligation: ob, res: r})
+			}
+			break
+		}
+	}
+	return out
+}
